@@ -118,7 +118,7 @@ func (m *mon) intraStep(nd *sim.Node, cur stepRec) {
 	dir := filepath.Join(m.base, fmt.Sprintf("intra-%d-%d", m.c, m.nclone))
 	m.nclone++
 	os.MkdirAll(dir, 0755)
-	defer os.RemoveAll(dir)
+	defer lib.RemoveLater(dir)
 	cl, err := m.net.Snapshot(m.X, dir)
 	if err != nil {
 		return
@@ -163,7 +163,7 @@ func (m *mon) intraStep(nd *sim.Node, cur stepRec) {
 	dir2 := filepath.Join(m.base, fmt.Sprintf("intra2-%d-%d", m.c, m.nclone))
 	m.nclone++
 	os.MkdirAll(dir2, 0755)
-	defer os.RemoveAll(dir2)
+	defer lib.RemoveLater(dir2)
 	cl2, err := m.net.SnapshotNode(cl, dir2)
 	if err != nil {
 		return
@@ -228,7 +228,7 @@ func (m *mon) replay(tag string, cutTo int64) (digest string, proposer string, o
 	dir := filepath.Join(m.base, fmt.Sprintf("clone-%d-%d", m.c, m.nclone))
 	m.nclone++
 	os.MkdirAll(dir, 0755)
-	defer os.RemoveAll(dir)
+	defer lib.RemoveLater(dir)
 	nd, err := m.net.Snapshot(m.X, dir)
 	if err != nil {
 		m.run.Inconclusive("snapshot failed: " + err.Error())
@@ -488,7 +488,7 @@ func runCase(run *lib.Run, c int64, base string) {
 	X := reals[rng.Intn(len(reals))]
 	dir := filepath.Join(base, fmt.Sprintf("c%d", c))
 	os.MkdirAll(dir, 0755)
-	defer os.RemoveAll(dir)
+	defer lib.RemoveLater(dir)
 	run.Eval()
 	net, err := sim.NewNet(sim.Config{Powers: powers, Real: real, Dir: dir, Label: "c07"})
 	if err != nil {
